@@ -92,8 +92,8 @@ ASSUMPTIONS = [
     "excluded: allocation failure and capacity requests beyond addressable memory (resource exhaustion), a failing "
     "thread::spawn, panics raised by user-supplied sinks or handlers",
     "c20_hint assumes the caller's strings + 10 bytes per value + 1 per tag stay below 2^63 (true of anything a 64-bit process holds); "
-    "the size hint itself is not observable through the public API, its model is tied to builder.rs by reading, the dynamic "
-    "check being that no call panics with overflow checks on",
+    "the size hint is reported by hook H3 (fmt.size_hint, cfg cadence_verif) and compared with Hint.size_hint on every call of the "
+    "hostile stream",
     "lock().unwrap() can only fail after a panic under the lock; the theorems exclude such panics in library code, the hostile "
     "stream validates it",
 ]
@@ -132,6 +132,7 @@ def check_C20(tier, seed):
         return rep.finish()
     failures = []
     dis = []
+    hint_dis = []     # size hints reported by hook H3 that differ from Hint.size_hint
     dist = {"calls": 0, "rejected": 0, "sent": 0, "io_errors": 0, "sinks": {}, "largest_line_bytes": 0,
             "writer_histories": sum(1 for o in others if o.startswith("HW")), "profiles": ["release+overflow-checks", "debug"]}
 
@@ -141,7 +142,11 @@ def check_C20(tier, seed):
             failures.append((len(line), line, o, "a call panicked (%s profile): %s" % (profile, o[:200])))
             return
         kinds = o.split("|")[0].split(",")
-        want = m.split(",")
+        want = m.split("|")[0].split(",")
+        zi = o.split("|Z:")[1] if "|Z:" in o else None
+        zm = m.split("|Z:")[1] if "|Z:" in m else None
+        if zi is not None and zi != zm and profile == "release":
+            hint_dis.append((len(line), line, zi, zm))
         for j, (k, w) in enumerate(zip(kinds, want)):
             if w == "einv" and k != "einv":
                 failures.append((len(line), line, o, "call %d: an invalid value was not reported as InvalidInput (%s)" % (j, k)))
@@ -158,8 +163,8 @@ def check_C20(tier, seed):
     for (sink, c), line, o, m in zip(cases, lines, impl, model):
         examine(line, sink, o, m, "release")
         dist["calls"] += len(c.calls)
-        dist["rejected"] += m.count("einv")
-        dist["sent"] += m.count("sent")
+        dist["rejected"] += m.split("|")[0].count("einv")
+        dist["sent"] += m.split("|")[0].count("sent")
         dist["io_errors"] += o.count("eio")
         dist["sinks"][sink] = dist["sinks"].get(sink, 0) + 1
         dist["largest_line_bytes"] = max(dist["largest_line_bytes"], len(line) // 2)
@@ -186,6 +191,15 @@ def check_C20(tier, seed):
             {"correspondence": "which calls are rejected / sent; wrapped statistics; writer results at capacities 0..3",
              "theorems": rep.cov.get("theorems", []), "first_disagreeing_case": line[:20000], "implementation": o[:3000],
              "model": m[:3000]})
+    if hint_dis and not failures and not dis:
+        hint_dis.sort()
+        _, line, zi, zm = hint_dis[0]
+        rep.violation_noinput(
+            "correspondence Model/Hint.v <-> MetricFormatter::size_hint broken on %d cases: the size hints reported through "
+            "hook H3 differ from the modelled arithmetic; c20_hint no longer speaks about this code" % len(hint_dis),
+            {"correspondence": "Hint.call_hint vs the value computed in MetricFormatter::format (hook fmt.size_hint)",
+             "theorems": ["c20_hint"], "first_disagreeing_case": line[:20000], "implementation": zi[:2000], "model": zm[:2000]})
+    dist["size_hints_compared"] = sum(o.split("|Z:")[1].count(",") + 1 for o in impl if "|Z:" in o)
     nt = set(case_hash(l) for l, m in zip(lines, model) if "einv" in m or any(s in l.split(" ")[1] for s in (":0", ":1", ":2", "q0", "q1")))
     rep.cov["evaluations"] = dist["calls"] * 2 // 1 + len(others) * 2
     rep.cov["distinct_nontrivial"] = len(nt)
